@@ -122,7 +122,7 @@ func (st *State) doCall(in *ssa.Call, b *ssa.BasicBlock, idx int) bool {
 	}
 	res := st.callCommon(c, fnv, args, in, false)
 	st.bind(in, res)
-	vc.runGhost(st, "after call", name, ord)
+	vc.runGhost(st, "after call", name, ord, res)
 	return false
 }
 
@@ -233,7 +233,9 @@ func (st *State) callUnknown(c *ssa.CallCommon, fnv Val, args []Val, site ssa.In
 	vc.setKeySort(k, SInt)
 	st.set(k, tAdd(st.get(k), tInt(1)))
 	sig := c.Signature()
-	return st.freshResults(sig.Results(), "ucall")
+	res := st.freshResults(sig.Results(), "ucall")
+	st.resultsAllocated(res, sig.Results())
+	return res
 }
 
 func (st *State) freshResults(res *types.Tuple, prefix string) Val {
@@ -241,21 +243,34 @@ func (st *State) freshResults(res *types.Tuple, prefix string) Val {
 	case 0:
 		return TupleV{}
 	case 1:
-		v := st.freshVal(prefix, res.At(0).Type())
-		if tv, ok := v.(TV); ok && isRefLike(res.At(0).Type()) {
-			st.assumeAllocated(tv.T)
-		}
-		return v
+		return st.freshVal(prefix, res.At(0).Type())
 	}
 	out := TupleV{}
 	for i := 0; i < res.Len(); i++ {
-		v := st.freshVal(fmt.Sprintf("%s.%d", prefix, i), res.At(i).Type())
-		if tv, ok := v.(TV); ok && isRefLike(res.At(i).Type()) {
-			st.assumeAllocated(tv.T)
-		}
-		out.E = append(out.E, v)
+		out.E = append(out.E, st.freshVal(fmt.Sprintf("%s.%d", prefix, i), res.At(i).Type()))
 	}
 	return out
+}
+
+// resultsAllocated: reference results of a call are allocated in the state after the call.
+func (st *State) resultsAllocated(res Val, rt *types.Tuple) {
+	one := func(v Val, t types.Type) {
+		if tv, ok := v.(TV); ok && isRefLike(t) {
+			st.assumeAllocated(tv.T)
+		}
+	}
+	switch r := res.(type) {
+	case TupleV:
+		for i, e := range r.E {
+			if i < rt.Len() {
+				one(e, rt.At(i).Type())
+			}
+		}
+	default:
+		if rt.Len() == 1 {
+			one(res, rt.At(0).Type())
+		}
+	}
 }
 
 // applyContract: assert requires, havoc modifies, assume ensures.
@@ -368,7 +383,7 @@ func (st *State) applyContract(fc *FuncContract, origin, inst *ssa.Function, arg
 		st.assume(ec.evalBool(e))
 	}
 	st.old = saved
-	// B1: lock effects declared by the callee ("holds" clauses are checked as requires)
+	st.resultsAllocated(res, origin.Signature.Results())
 	return res
 }
 
@@ -479,6 +494,7 @@ func (st *State) invoke(c *ssa.CallCommon, recv Val, args []Val, site ssa.Instru
 		st.assume(ec.evalBool(e))
 	}
 	st.old = saved
+	st.resultsAllocated(res, sig.Results())
 	return res
 }
 
